@@ -43,6 +43,10 @@ impl AgendaManager {
         // Add to top of stack
         self.focus_stack.push(group.clone());
         self.active_group = group.clone();
+        #[cfg(feature = "verif-hooks")]
+        crate::verif_hooks::emit(crate::verif_hooks::Event::AgendaFocus {
+            group: group.clone(),
+        });
 
         // Mark group as activated
         self.activated_groups.insert(group.clone());
@@ -110,6 +114,10 @@ impl AgendaManager {
             self.focus_stack.pop();
             if let Some(previous) = self.focus_stack.last() {
                 self.active_group = previous.clone();
+                #[cfg(feature = "verif-hooks")]
+                crate::verif_hooks::emit(crate::verif_hooks::Event::AgendaFocus {
+                    group: previous.clone(),
+                });
                 Some(previous.clone())
             } else {
                 None
@@ -124,6 +132,10 @@ impl AgendaManager {
         self.focus_stack.clear();
         self.focus_stack.push("MAIN".to_string());
         self.active_group = "MAIN".to_string();
+        #[cfg(feature = "verif-hooks")]
+        crate::verif_hooks::emit(crate::verif_hooks::Event::AgendaFocus {
+            group: "MAIN".to_string(),
+        });
     }
 
     /// Get all agenda groups with rules
